@@ -480,6 +480,28 @@ func capacityChecks(acc *ev.Acc) {
 				}
 			}
 		}
+		// 2b. ReadTo buffers on a length grid: only a 4096-byte buffer is a block, for every implementation alike
+		for _, l := range []int{0, 1, 4095, 4097, 8192} {
+			im := mk(name, 2)
+			use(im)
+			write(im, 1, libh.Pat("B"))
+			buf := make([]byte, l)
+			for i := range buf {
+				buf[i] = 0xEE
+			}
+			p := libh.Try(func() {
+				if im.global {
+					disk.Get().ReadTo(1, buf)
+				} else {
+					im.d.ReadTo(1, buf)
+				}
+			})
+			acc.Add("transitions", 2)
+			acc.Add("capacity_histories", 1)
+			if p == "" {
+				viol(name, fmt.Sprintf("readto-len%d/refusal", l), fmt.Sprintf("ReadTo into a buffer of %d bytes was accepted (only a %d-byte buffer is a block)", l, 4096))
+			}
+		}
 		// 3. ReadTo into a block-sized window of a larger array
 		for _, extra := range []int{1, 4096} {
 			im := mk(name, 2)
@@ -502,6 +524,53 @@ func capacityChecks(acc *ev.Acc) {
 				if x != 0xEE {
 					viol(name, fmt.Sprintf("readto-cap%d/spare", 4096+extra), "ReadTo wrote beyond len(buf) into the caller's spare capacity")
 					break
+				}
+			}
+		}
+	}
+}
+
+// hugeChecks: sizes and addresses whose byte offset does not fit (numBlocks*4096 and a*4096 wrap at 2^52 blocks).
+// Only the file-backed disks are asked (a memory disk of that size cannot be allocated); creation may be refused,
+// otherwise the registers stay independent.
+func hugeChecks(acc *ev.Acc) {
+	for _, name := range []string{"file", "async_file"} {
+		for _, nb := range []uint64{1 << 52, 1<<52 + 2, 1 << 63, 1<<64 - 1} {
+			k := simunix.New()
+			simunix.K = k
+			var d disk.Disk
+			var err error
+			p := libh.Try(func() {
+				if name == "file" {
+					d, err = disk.NewFileDisk("d.img", nb)
+				} else {
+					d, err = async_disk.NewFileDisk("d.img", nb)
+				}
+			})
+			acc.Add("transitions", 1)
+			acc.Add("capacity_histories", 1)
+			if p != "" || err != nil {
+				continue // refused: fine
+			}
+			viol := func(what, msg string) {
+				acc.Violate(ev.Violation{Key: fmt.Sprintf("C09/huge/%s/%d/%s", name, nb, what), Msg: fmt.Sprintf("%s disk of %d blocks: %s", name, nb, msg), Replay: map[string]any{"cfg": cfg{N: 0}, "path": []int{}, "mode": "capacity"}})
+			}
+			if d.Size() != nb {
+				viol("size", fmt.Sprintf("Size() = %d", d.Size()))
+				continue
+			}
+			for _, hi := range []uint64{1 << 52, nb - 1} {
+				if hi >= nb || hi == 0 {
+					continue
+				}
+				if q := libh.Try(func() { d.Write(0, libh.Pat("A")) }); q != "" {
+					break // the first block cannot be written: refused in effect
+				}
+				q := libh.Try(func() { d.Write(hi, libh.Pat("B")) })
+				acc.Add("transitions", 3)
+				var got []byte
+				if r := libh.Try(func() { got = d.Read(0) }); r == "" && libh.Classify(got) != "A" {
+					viol(fmt.Sprintf("alias/%d", hi), fmt.Sprintf("Write(%d) (refused=%q) changed block 0 to %s: the byte offset %d*4096 wraps", hi, q, libh.Classify(got), hi))
 				}
 			}
 		}
@@ -706,6 +775,7 @@ func main() {
 		if i == n-1 {
 			globalRebind(acc)
 			capacityChecks(acc)
+			hugeChecks(acc)
 		}
 		acc.Add("traces_validated_against_impl", validated)
 		acc.EmitChild()
